@@ -708,6 +708,10 @@ func (c *FuncCtx) typeInvD(v Val, depth int) string {
 		if _, _, ok := intInfo(v.T); ok {
 			return c.intRange(v.S, v.T)
 		}
+		if isString(v.T) && c.mode == ModeInt {
+			// a string VALUE of the program fits in memory (the universal axiom only says slen >= 0)
+			return fmt.Sprintf("(< (slen %s) 140737488355328)", v.S)
+		}
 	case *types.Slice:
 		return fmt.Sprintf("(wf_slice %s)", v.S)
 	case *types.Struct:
